@@ -51,6 +51,12 @@ impl<const BUFFER_SIZE: usize, const MAX_STREAMS: usize> Chan<BUFFER_SIZE, MAX_S
     pub open spec fn unchanged(&self, o: &Self) -> bool { self.same_but_queues(o) && self.queues == o.queues && self.eff == o.eff }
     /// what a suspended send_with_async holds that makes others WAIT: nothing (a reserved pool slot consumes capacity only)
     pub open spec fn blocking_held(&self) -> int { 0 }
+    /// `self.streams_manager.running_streams_count()`: the number of live listeners (a racy snapshot under concurrency; exact in the S-model)
+    #[verifier::external_body]
+    pub fn running_streams_count(&self) -> (r: u32)
+        requires self.wf(),
+        ensures (r == 0) <==> (forall|j: int| !self.live@.contains(j)),
+    { unimplemented!() }
     /// `self.streams_manager.create_stream_id()`: hands out a vacant id (which one: the vacant FIFO's head -- any id that is not live, as far as this unit knows)
     #[verifier::external_body]
     pub fn create_stream_id(&mut self) -> (id: u32)
@@ -173,9 +179,10 @@ R_RETRY = Rule("R3-retry-path", r"\bkeen_retry::RetryResult::", "RetryResult::",
 R_NEW = Rule("R6-ogre-arc-new", r"\bOgreArc::new\(&self\.allocator\)", "self.ogre_arc_new()", min=0, note="OgreArc::new(&allocator) -> the allocator's / handle's CONTRACT")
 R_FROM = Rule("R6-ogre-arc-from", r"\bOgreArc::from_allocated\((\w+), &self\.allocator\)", r"self.ogre_arc_from_allocated(\1)", min=0)
 R_ALLOC = Rule("R6-allocator", r"\bself\.allocator\.(\w+)\(", r"self.\1(", min=0, note="allocator call -> the allocator's CONTRACT")
+R_LIVE = Rule("R6-live-count", r"\bself\.streams_manager\.running_streams_count\(\)", "self.running_streams_count()", min=0, note="streams manager query -> shim")
 R_DISCARD = Rule("R5-discard", r"(?m)^(\s*)_ = ", r"\1let _ = ", min=0, note="`_ = expr;` -> `let _ = expr;`")
 R_WRITE = Rule("R7-write", r"unsafe \{ std::ptr::write\(slot, item\) \}", "self.slot_write(slot, item);", min=0, note="ptr::write -> slot_write (the slot must be held by this producer)")
-COMMON = [R_RETRY, R_NEW, R_FROM, R_ALLOC, R_DISCARD, R_WRITE]
+COMMON = [R_RETRY, R_NEW, R_FROM, R_ALLOC, R_LIVE, R_DISCARD, R_WRITE]
 
 
 KNOWN_FIELDS = {"streams_manager", "dispatcher_managers", "allocator", "channels", "senders", "receivers", "_phanrom", "_phantom"}
@@ -370,6 +377,12 @@ impl<const BUFFER_SIZE: usize, const MAX_STREAMS: usize> Chan<BUFFER_SIZE, MAX_S
         &&& forall|j: int| 0 <= j < before.len() ==> (#[trigger] self.queues@[j]) == (if self.live@.contains(j) { before[j].push(v) } else { before[j] })
     }
     pub open spec fn blocking_held(&self) -> int { 0 }
+    /// `self.streams_manager.running_streams_count()`: the number of live listeners (a racy snapshot under concurrency; exact in the S-model)
+    #[verifier::external_body]
+    pub fn running_streams_count(&self) -> (r: u32)
+        requires self.wf(),
+        ensures (r == 0) <==> (forall|j: int| !self.live@.contains(j)),
+    { unimplemented!() }
     /// `self.streams_manager.create_stream_id()`: hands out a vacant id (which one: the vacant FIFO's head -- any id that is not live, as far as this unit knows)
     #[verifier::external_body]
     pub fn create_stream_id(&mut self) -> (id: u32)
@@ -441,7 +454,7 @@ R_ARC_NEW = Rule("R6-arc-new", r"\bArc::new\(item\)", "arc_new(item)", min=0, no
 SETTER_VALUE = Rule("R7-maybeuninit", r"let mut item = MaybeUninit::uninit\(\);\s*let item_ref = unsafe \{ &mut \*item\.as_mut_ptr\(\) \};\s*setter\(item_ref\)(\.await)?;\s*let item = unsafe \{ item\.assume_init\(\) \};",
                     lambda m: ("self.suspend_point_holding_nothing(); " if m.group(1) else "") + "let item = setter.apply();", count=1,
                     note="MaybeUninit slot + setter call -> Setter::apply (consumed: invoked exactly once); the async setter's .await is a suspension point with the C20 state assertion")
-COMMON_ARC = [R_RETRY, R_ARC_NEW, R_DISCARD]
+COMMON_ARC = [R_RETRY, R_ARC_NEW, R_LIVE, R_DISCARD]
 
 
 def unit_arc(kind, file, struct, consume_rule):
